@@ -217,6 +217,20 @@ func runReplayBinary(bin, cwd, harness, file, tier string) (*replayResult, error
 }
 
 func confirmed(v *Violation, rr *replayResult) (bool, string) {
+	if v.Kind == "assert" && (rr.Assume || rr.Mismatch) {
+		// the counterexample's path ends at the failing assertion: inputs drawn after it are
+		// not part of the model (they replay as 0) and may leave the path — what counts is
+		// that the assertion failed while the native run was still on the path
+		for _, l := range strings.Split(rr.Out, "\n") {
+			l = strings.TrimSpace(l)
+			if l == "VF-ASSUME-FAIL" || strings.HasPrefix(l, "VF-MISMATCH") {
+				break
+			}
+			if l == "VF-ASSERT "+v.Label {
+				return true, ""
+			}
+		}
+	}
 	if rr.Assume || rr.Mismatch {
 		return false, "native run left the executor's path (assumption failed / input mismatch)"
 	}
